@@ -402,12 +402,25 @@ def c18_l1(F, X, rep, bodies):
                 for c in pb.calls:
                     if c.name == "std::iter::Iterator::for_each" and len(c.args) > 1 and any(y[0] == "agg" and y[1] == "closure:" + b.cdef for y in walk(strip(X.operand(pb, c.args[1])))):
                         fe_sites.append((pb, c))
-        ok = len(nx) == 1 or len(fe_sites) == 1
+        hl_sites = []
+        if not nx and not fe_sites and b.kind in ("Fn", "AssocFn"):
+            # the per-record writes sit in a helper (`e.write_to(&mut b)`) called from the loop over the records
+            for c in F.callers.get(b.cdef, []):
+                cb = c.body
+                cnx = [x for x in cb.calls if x.name == "std::iter::Iterator::next" and c.bb in cb.reach_after([x.bb])]
+                for x in cnx:
+                    some_ = lib.enum_arm_target(cb, x.target, "Some") if x.target is not None else None
+                    if some_ is not None and c.bb in cb.reach([some_]) and _all_paths_pass(cb, some_, x.bb, c.bb):
+                        hl_sites.append((cb, x))
+        ok = len(nx) == 1 or len(fe_sites) == 1 or len(hl_sites) == 1
         rep.ob("C18-L1", ok, fn, "single loop over the records", where=nx[0].loc if nx else loc(b.span), how="1 Iterator::next / for_each", detail="" if ok else "%d iterator loops" % (len(nx) + len(fe_sites)))
-        if nx or fe_sites:
+        if nx or fe_sites or hl_sites:
             if nx:
                 it = strip(X.operand(b, nx[0].args[0]))
                 itloc = nx[0].loc
+            elif hl_sites:
+                it = strip(X.operand(hl_sites[0][0], hl_sites[0][1].args[0]))
+                itloc = hl_sites[0][1].loc
             else:
                 it = strip(X.operand(fe_sites[0][0], fe_sites[0][1].args[0]))
                 itloc = fe_sites[0][1].loc
